@@ -630,6 +630,15 @@ PROPS["C04"]["explanation"] += (" C04_system_own_reply / C04_system_reply_queue_
 PROPS["C05"]["explanation"] += (" c04sys (nobody hangs while the server answers): every call of every caller "
     "returned whatever the order of the server's answers (C04_system_waiting_progress: no reachable state of the "
     "system is a deadlock).")
+PROPS["C01"]["check_mods"].append("C04sys")
+PROPS["C01"]["drivers"].append({"name": "c04sys", "n_quick": 60, "n_thorough": 3000, "timeout": 3000})
+PROPS["C01"]["rule"] += (" The whole system (c04sys, see C04): 1-5 caller threads with programs of synchronous and nowait "
+    "calls on their own channels, mailbox bound 1 / 2 / 16, the transport taking the bytes in pieces: the broker must "
+    "see each channel's requests exactly as issued, in order.")
+PROPS["C01"]["explanation"] += (" C01_system_wire_order (Model/Sys.v): for every schedule of callers, I/O thread and "
+    "server, what the server has read of a channel followed by what is still on its way is exactly what that "
+    "channel issued, in order; c04sys compares the real program with it.")
+PROPS["C01"]["trusted_base"] = PROPS["C01"]["trusted_base"] + L2_TRUSTED
 # a silent server while the connection is closing (seed C05d): the heartbeat scenarios of the c05 generator
 PROPS["C17"]["check_mods"].append("C05")
 PROPS["C17"]["drivers"].append({"name": "c05core", "n_quick": 160, "n_thorough": 2000, "timeout": 3000})
